@@ -220,8 +220,9 @@ def fault_injection(ctx, build, stats):
 
 def check(ctx):
     build = C.ensure_built("C11", ["disk"])
-    # (the `big` stream: sparse images of more than 2^20 blocks, addresses that agree modulo 2^20 — every block is the last value written)
-    found, stats = c09.explore(ctx, build, ["reopen", "big"], lambda s: ["file", "afile", "gfile"], "C11")
+    # (the `big` stream: sparse images of more than 2^20 blocks, addresses that agree modulo 2^20 — every block is the last value written;
+    #  the `huge` stream: block counts whose byte length is not a file offset — refused, never opened with aliasing blocks)
+    found, stats = c09.explore(ctx, build, ["reopen", "big", "huge"], lambda s: ["file", "afile", "gfile"], "C11")
     stats["fault_runs"] = 0
     stats["kill_runs"] = 0
     stats["fault_classes"] = collections.Counter()
